@@ -96,7 +96,7 @@ def adjustRotationToMidpoint(active_point : tm,
         t_mid = tmInterpMidpoint(ref_point_1, ref_point_2)
         modified_point[3:6] = t_mid[3:6]
     else:
-        modified_point[3:6] = rotationFromVector(ref_point_1, ref_point_2)[3:6]
+        modified_point[3:6] = rotationFromVector(ref_point_1.copy(), ref_point_2)[3:6]
     return modified_point
 
 def tmAvgMidpoint(ref_point_1, ref_point_2):
